@@ -1199,6 +1199,52 @@ def replay_file(run, path):
     return run.finish({"traces_validated_against_impl": 1, "replay_of": path})
 
 
+def shared_objects_check(run):
+    """subscribers are counted as OBJECTS, not as distinct callbacks or distinct cores: several Subscriber objects may share
+    one callable (a recorder tap), and several Core objects live in one process.  Every subscriber of a topic receives
+    every message of that topic of ITS core exactly once, in registration order."""
+    import cyecca.sim.uros as uros
+    import cyecca.sim.msgs as msgs
+    log = []
+
+    class Rec:
+        def __init__(self, name):
+            self.name = name
+
+        def cb(self, m):
+            log.append((self.name, float(m.data["time"])))
+    rec, other = Rec("rec"), Rec("other")
+
+    def tap(m):
+        log.append(("tap", float(m.data["time"])))
+    cores = [uros.Core(), uros.Core()]
+    pubs = []
+    for ci, core in enumerate(cores):
+        pa = uros.Publisher(core, "a", msgs.Imu); pb = uros.Publisher(core, "b", msgs.Imu)
+        pubs.append((pa, pb))
+    # core 0: topic a has [rec.cb, other.cb, rec.cb, tap, tap]; topic b has [rec.cb, tap];  core 1: topic a has [other.cb]
+    for cb in (rec.cb, other.cb, rec.cb, tap, tap):
+        uros.Subscriber(cores[0], "a", msgs.Imu, cb)
+    for cb in (rec.cb, tap):
+        uros.Subscriber(cores[0], "b", msgs.Imu, cb)
+    uros.Subscriber(cores[1], "a", msgs.Imu, other.cb)
+    want = []
+    t = 0.0
+    for rnd in range(3):
+        for ci, topic, names in ((0, "a", ["rec", "other", "rec", "tap", "tap"]), (0, "b", ["rec", "tap"]), (1, "a", ["other"]), (1, "b", [])):
+            t += 1.0
+            m = msgs.Imu(); m.data["time"] = t
+            (pubs[ci][0] if topic == "a" else pubs[ci][1]).publish(m)
+            want += [(nm, t) for nm in names]
+    run.count("shared_object_deliveries", len(want))
+    if log != want:
+        extra = [x for x in log if log.count(x) > want.count(x)][:4]
+        missing = [x for x in want if want.count(x) > log.count(x)][:4]
+        run.violation("publish/exactly_once/shared_callback_or_core", "with Subscriber objects that share one callable, or with two Core objects in one process, "
+                      f"deliveries differ from one per subscriber object of the topic of that core, in registration order (missing {missing}, extra {extra})",
+                      {"engine": "script", "expected": want[:24], "got": log[:24], "n_expected": len(want), "n_got": len(log)})
+
+
 def main():
     tier = sys.argv[1] if len(sys.argv) > 1 and not sys.argv[1].startswith("-") else "quick"
     if tier not in TIERS:
@@ -1228,6 +1274,7 @@ def _main(run, tier):
     ex = cf.ThreadPoolExecutor(1)
     fut_mc = ex.submit(model_checking, run, tier)
     st = selftest(run, seed) if (tier == "thorough" or os.environ.get("VERIF_SELFTEST") == "1") else None
+    shared_objects_check(run)
     nB, statsB = engine_b_bus(run, tier, seed)
     nBe, cellsE = engine_b_est(run, tier, seed)
     nC = engine_c_bus(run, tier, seed)
